@@ -739,6 +739,8 @@ def check_operation(inp):
         def rnd(shape, key):
             if key in inp and inp[key] is not None:
                 return np.array(inp[key], dtype=complex).reshape(shape)
+            if inp.get('real_xy'):
+                return rng.standard_normal(shape)          # real local tensors with (complex) environment blocks
             return rng.standard_normal(shape) + 1j * rng.standard_normal(shape)
         if kind in ('local1', 'hermitian'):
             X = rnd(psi.A[i].shape, 'X'); Y = rnd(psi.A[i].shape, 'Y')
